@@ -20,7 +20,7 @@ counters the code rebuilds), the general loss theorems, the witnesses, and the c
 equivalence for one block step of the surviving component.
 -/
 namespace Hub.Props.C12
-open Hub.SDK Hub.Model
+open Hub.SDK Hub.Model Hub.Model.Gen
 open Hub.Generated (Status)
 open Hub.Generated.Keys
 
@@ -646,6 +646,218 @@ theorem reimport_session_counter_decreases {s s' : State} {c : Nat} (h : reimpor
     obtain ⟨i, hi⟩ := mem_exportVals.mp hx
     rw [← hid]; exact hk i x hi
 
+/-! ## Continuation: the surviving component processes provider/node/plan messages alike
+
+The continuation half of C12 is false in general (F5, F9). For the component the round trip keeps it is
+proved here for the nine provider / node / plan management messages (registration, update, status
+change, plan creation, status, link, unlink): delivered to the original state and to the re-imported
+state, any sequence of them gives the same outcomes (accept / reject with the same error), the same
+events, and states that again agree on the provider, node and plan tables, the node queue, links,
+provider index, plan counter, balances and parameters.
+
+Not covered (stated, not proved): block processing (`begin`/`end`: the hooks iterate tables in key
+order, which needs injectivity of the key encodings, C17, to be order-independent) and the
+subscription/session messages (which read the lost tables). -/
+
+/-- The provider / node / plan management messages. -/
+def isPNP : Msg → Bool
+  | .provRegister .. | .provUpdate .. | .nodeRegister .. | .nodeUpdate .. | .nodeStatus ..
+  | .planCreate .. | .planStatus .. | .planLink .. | .planUnlink .. => true
+  | _ => false
+
+theorem handle_rel {s s' : State} (h : AgreePNP s s') (m : Msg) (hm : isPNP m = true) : RelM (m.handle s) (m.handle s') := by
+  cases m <;> simp only [isPNP, Bool.false_eq_true] at hm <;> simp only [Msg.handle]
+  case provRegister => exact provRegister_rel h _ _ _ _ _
+  case provUpdate => exact provUpdate_rel h _ _ _ _ _ _
+  case nodeRegister => exact nodeRegister_rel h _ _ _ _
+  case nodeUpdate => exact nodeUpdate_rel h _ _ _ _
+  case nodeStatus => exact nodeStatus_rel h _ _
+  case planCreate => exact planCreate_rel h _ _ _ _
+  case planStatus => exact planStatus_rel h _ _ _
+  case planLink => exact planLink_rel h _ _ _
+  case planUnlink => exact planUnlink_rel h _ _ _
+
+theorem agreePNP_clear {s s' : State} (h : AgreePNP s s') : AgreePNP { s with events := [] } { s' with events := [] } :=
+  { h with events := rfl }
+
+/-- One delivered message: same outcome, related states (events included). Only the event-cleared
+states need to be related beforehand (`deliver` clears the buffer first). -/
+theorem deliver_pnp {s s' : State} (h : AgreePNP { s with events := [] } { s' with events := [] }) (m : Msg) (hm : isPNP m = true) :
+    AgreePNP (deliver s m).1 (deliver s' m).1 ∧ (deliver s' m).2 = (deliver s m).2 := by
+  have hr : RelM (do m.validateBasic; m.handle { s with events := [] } : M State)
+      (do m.validateBasic; m.handle { s' with events := [] } : M State) := by
+    cases m.validateBasic with
+    | error e => show RelM (.error _) (.error _); rfl
+    | ok u => exact handle_rel h m hm
+  unfold deliver
+  dsimp only
+  generalize (do m.validateBasic; m.handle { s with events := [] } : M State) = r at hr
+  generalize (do m.validateBasic; m.handle { s' with events := [] } : M State) = r' at hr
+  cases r with
+  | ok t => cases r' with
+    | ok t' => exact ⟨hr, rfl⟩
+    | error e' => exact hr.elim
+  | error e => cases r' with
+    | ok t' => exact hr.elim
+    | error e' =>
+      have : e = e' := hr
+      subst this
+      cases e <;> exact ⟨h, rfl⟩
+
+/-- Deliver a list of messages, collecting outcomes and events. -/
+def deliverAll (s : State) : List Msg → State × List (Outcome × List Event)
+  | [] => (s, [])
+  | m :: rest =>
+    let r := deliver s m
+    let q := deliverAll r.1 rest
+    (q.1, (r.2, r.1.events) :: q.2)
+
+theorem deliverAll_pnp {s s' : State} (h : AgreePNP { s with events := [] } { s' with events := [] })
+    (ms : List Msg) (hms : ∀ m ∈ ms, isPNP m = true) :
+    AgreePNP { (deliverAll s ms).1 with events := [] } { (deliverAll s' ms).1 with events := [] } ∧
+    (deliverAll s' ms).2 = (deliverAll s ms).2 := by
+  induction ms generalizing s s' with
+  | nil => exact ⟨h, rfl⟩
+  | cons m rest ih =>
+    obtain ⟨h1, h2⟩ := deliver_pnp h m (hms m (List.mem_cons_self ..))
+    obtain ⟨h3, h4⟩ := ih (agreePNP_clear h1) (fun x hx => hms x (List.mem_cons_of_mem _ hx))
+    refine ⟨h3, ?_⟩
+    show (_, _) :: _ = (_, _) :: _
+    rw [h2, h1.events, h4]
+
+/-- What `Agree` gives for the provider/node/plan component. -/
+theorem Agree.toPNP {s s' : State} (h : Agree s s') : AgreePNP { s with events := [] } { s' with events := [] } :=
+  { bank := h.bank, time := h.time, params := h.params, events := rfl, planCount := h.planCount,
+    provActive := h.provActive, provInactive := h.provInactive, nodeActive := h.nodeActive, nodeInactive := h.nodeInactive,
+    nodeQ := h.nodeQ, nodeForPlan := h.nodeForPlan, planActive := h.planActive, planInactive := h.planInactive,
+    planForProv := h.planForProv }
+
+/-- **Continuation, surviving component.** After the round trip of a well-formed state every sequence of
+provider/node/plan messages is processed with the same outcomes and events as on the original state,
+and the two final states again agree on that component. -/
+theorem continuation_partial (s : State) (h : GenWF s) (ms : List Msg) (hms : ∀ m ∈ ms, isPNP m = true) :
+    ∃ s', reimport s = some s' ∧
+      (deliverAll s' ms).2 = (deliverAll s ms).2 ∧
+      AgreePNP { (deliverAll s ms).1 with events := [] } { (deliverAll s' ms).1 with events := [] } := by
+  refine ⟨imported s, reimport_ok h, ?_⟩
+  obtain ⟨a, b⟩ := deliverAll_pnp (agree_imported h).toPNP ms hms
+  exact ⟨b, a⟩
+
+/-- The same for whole histories including block processing and every message that does not touch a
+subscription: stated, not proved (see the note above). -/
+def continuation_surviving : Prop :=
+  ∀ s, GenWF s → s.subs = [] → s.sessions = [] → s.deposits = [] →
+    ∀ h : List Op, (∀ op ∈ h, match op with | .tx m => isPNP m = true | _ => True) →
+      ∃ s', reimport s = some s' ∧ (runTrace s' h).map dump = (runTrace s h).map dump
+
+/-! ## The executable form of `GenWF` is sound
+
+`genWFb` (in `Hub.Model.Genesis`, core Lean, usable as a run-time monitor) implies `GenWF`; so the
+hypotheses of `roundtrip_partial` can be *checked* on any concrete state, in particular on every state
+of a replayed history. -/
+
+theorem isNone_iff {o : Option String} : o.isNone = true ↔ o = none := by cases o <;> simp
+
+theorem genWF_of_check {s : State} (h : genWFb s = true) : GenWF s := by
+  unfold genWFb genWFChecks at h
+  simp only [List.all_cons, List.all_nil, Bool.and_true] at h
+  simp only [Bool.and_eq_true] at h
+  obtain ⟨c1, c2, c3, c4, c5, c6, c7, c8, c9, c10, c11, c12, c13, c14, c15, c16, c17, c18, c19, c20, c21, c22, c23, c24, c25, c26, c27, c28⟩ := h
+  have hplan := partOK_of_b c8
+  have genPlanAt_iff : ∀ i p, genPlanAt s i = some p ↔ (s.planActive.get i = some p ∨ s.planInactive.get i = some p) := by
+    intro i p; unfold genPlanAt
+    cases ha : s.planActive.get i with
+    | none => simp
+    | some x =>
+      simp only [Option.some.injEq]
+      constructor
+      · intro e; exact Or.inl e
+      · rintro (e | e)
+        · exact e
+        · rw [hplan.disj i x ha] at e; cases e
+  refine
+    { depNodup := genNodupKeys_iff.mp c1, linkNodup := genNodupKeys_iff.mp c2, sessNodup := genNodupKeys_iff.mp c3,
+      swapNodup := genNodupKeys_iff.mp c4, inflNodup := genNodupKeys_iff.mp c5,
+      prov := partOK_of_b c6, node := partOK_of_b c7, plan := hplan,
+      sessKey := fun i x hg => by simpa using all_of_get c9 hg,
+      swapKey := fun i x hg => by simpa using all_of_get c10 hg,
+      inflKey := fun i x hg => by simpa using all_of_get c11 hg,
+      nodeQ := ?_, planIdx := ?_, links := ?_, sessQ := ?_, sessAcc := ?_, sessNode := ?_, sessSub := ?_, sessAlloc := ?_,
+      planCount := ?_,
+      depValid := fun a cs hg => isNone_iff.mp (all_of_get c21 hg),
+      provValid := ?_, nodeValid := ?_, planValid := ?_,
+      sessValid := fun i x hg => isNone_iff.mp (all_of_get c25 hg),
+      swapValid := fun i x hg => isNone_iff.mp (all_of_get c26 hg),
+      inflValid := fun i x hg => isNone_iff.mp (all_of_get c27 hg),
+      paramsValid := ?_ }
+  · intro t a
+    rw [index_of_b c12 (t, a)]
+    simp only [Prod.mk.injEq, and_true]
+  · intro a i
+    obtain ⟨⟨d1, d2⟩, d3⟩ := c13
+    constructor
+    · intro hg
+      have := all_of_get d1 hg
+      cases hp : genPlanAt s i with
+      | none => rw [hp] at this; cases this
+      | some pl => rw [hp] at this; exact ⟨pl, (genPlanAt_iff i pl).mp hp, of_decide_eq_true this⟩
+    · rintro ⟨p, hp | hp, rfl⟩
+      · exact has_true_iff.mp (all_of_get d2 hp)
+      · exact has_true_iff.mp (all_of_get d3 hp)
+  · intro i a hg
+    have := all_of_get c14 hg
+    simp only [Bool.and_eq_true, Bool.or_eq_true, Tbl.has_iff] at this
+    obtain ⟨hp, hn⟩ := this
+    refine ⟨?_, ?_⟩
+    · rcases hp with ⟨p, hp⟩ | ⟨p, hp⟩
+      · exact ⟨p, Or.inl hp⟩
+      · exact ⟨p, Or.inr hp⟩
+    · rcases hn with ⟨p, hp⟩ | ⟨p, hp⟩
+      · exact ⟨p, Or.inl hp⟩
+      · exact ⟨p, Or.inr hp⟩
+  · intro t i
+    rw [index_of_b c15 (t, i)]
+    simp only [Prod.mk.injEq, and_true]
+  · intro a i
+    rw [index_of_b c16 (a, i)]
+    simp only [Prod.mk.injEq, and_true]
+  · intro a i
+    rw [index_of_b c17 (a, i)]
+    simp only [Prod.mk.injEq, and_true]
+  · intro b i
+    rw [index_of_b c18 (b, i)]
+    simp only [Prod.mk.injEq, and_true]
+  · intro b a i
+    rw [index_of_b c19 (b, a, i)]
+    simp only [Prod.mk.injEq, and_true]
+  · cases hc : s.planCount with
+    | none => rw [hc] at c20; cases c20
+    | some c =>
+      rw [hc] at c20
+      simp only [Bool.and_eq_true, Bool.or_eq_true, decide_eq_true_eq, Tbl.has_iff] at c20
+      obtain ⟨⟨e1, e2⟩, e3⟩ := c20
+      refine ⟨c, rfl, ?_, ?_⟩
+      · rintro i p (hp | hp)
+        · simpa using all_of_get e1 hp
+        · simpa using all_of_get e2 hp
+      · rcases e3 with (e3 | ⟨p, hp⟩) | ⟨p, hp⟩
+        · exact Or.inl e3
+        · exact Or.inr ⟨p, Or.inl hp⟩
+        · exact Or.inr ⟨p, Or.inr hp⟩
+  · rintro a p (hp | hp)
+    · exact isNone_iff.mp (all_of_get c22.1 hp)
+    · exact isNone_iff.mp (all_of_get c22.2 hp)
+  · rintro a p (hp | hp)
+    · exact isNone_iff.mp (all_of_get c23.1 hp)
+    · exact isNone_iff.mp (all_of_get c23.2 hp)
+  · rintro a p (hp | hp)
+    · exact isNone_iff.mp (all_of_get c24.1 hp)
+    · exact isNone_iff.mp (all_of_get c24.2 hp)
+  · simp only [isNone_iff] at c28
+    obtain ⟨⟨⟨⟨p1, p2⟩, p3⟩, p4⟩, p5⟩ := c28
+    exact ⟨p1, p2, p3, p4, p5⟩
+
+
 /-! ## Witnesses: reachable states on which the full statement fails
 
 Each witness state is *computed* by the model from a genesis of the domain and a history (so it is
@@ -682,7 +894,7 @@ theorem histF4_runs : (run wGenesis.state histF4).isSome = true := by decide +ke
 def wF4 : State := (run wGenesis.state histF4).get histF4_runs
 
 theorem wF4_reachable : Reachable wF4 ∧ AtBoundary wF4 :=
-  ⟨⟨wGenesis, histF4, (Option.some_get histF4_runs).symm⟩, by decide +kernel⟩
+  ⟨⟨wGenesis, histF4, (Option.some_get histF4_runs).symm⟩, by show wF4.modified = {}; decide +kernel⟩
 
 /-- **F4.** The approver's swap of 500 is accepted and recorded as 5; the exported genesis of the
 resulting (reachable, block-boundary) state fails `Swap.Validate` ("amount cannot be less than 100"),
@@ -700,12 +912,12 @@ theorem small_swap_invalidates_export :
 per-hour subscription (payout). -/
 def histF5 : List Op :=
   [.begin 1700000005000000000] ++ wNodeUp ++
-  [.tx (.nodeSubscribe (acc 3) (nod 2) 1 0 "udvpn"), .tx (.nodeSubscribe (acc 4) (nod 2) 0 2 "udvpn"),
+  [.tx (.nodeSubscribe (acc 3) (nod 2) 1 0 "udvpn"), .tx (.nodeSubscribe (acc 3) (nod 2) 0 2 "udvpn"),
    .tx (.sessStart (acc 3) 1 (nod 2)), .endB]
 theorem histF5_runs : (run wGenesis.state histF5).isSome = true := by decide +kernel
 def wF5 : State := (run wGenesis.state histF5).get histF5_runs
 theorem wF5_reachable : Reachable wF5 ∧ AtBoundary wF5 :=
-  ⟨⟨wGenesis, histF5, (Option.some_get histF5_runs).symm⟩, by decide +kernel⟩
+  ⟨⟨wGenesis, histF5, (Option.some_get histF5_runs).symm⟩, by show wF5.modified = {}; decide +kernel⟩
 
 theorem wF5_reimports : (reimport wF5).isSome = true := by decide +kernel
 /-- The state after the round trip. -/
@@ -719,8 +931,7 @@ theorem subscriptions_lost_by_roundtrip :
     validateGenesis (exportVpn wF5) (exportSwap wF5) (exportMint wF5) = none ∧
     (wF5.subs.keys = [1, 2] ∧ wF5.allocs.keys = [(1, [3])] ∧ wF5.payouts.keys = [2] ∧ wF5.subCount = some 2) ∧
     (wF5'.subs = [] ∧ wF5'.allocs = [] ∧ wF5'.payouts = [] ∧ wF5'.payQ = [] ∧ wF5'.subQ = [] ∧ wF5'.subCount = none) ∧
-    (wF5'.deposits.get [3] = some [⟨"udvpn", 10⟩] ∧ wF5'.deposits.get [4] = some [⟨"udvpn", 10⟩] ∧
-      balance wF5' depositAddr "udvpn" = 20) ∧
+    (wF5'.deposits.get [3] = some [⟨"udvpn", 20⟩] ∧ balance wF5' depositAddr "udvpn" = 20) ∧
     (wF5'.sessions.get 1).map (·.sub) = some 1 := by decide +kernel
 
 /-- The continuation differs, and fatally: ending the surviving session and letting it settle halts
@@ -735,14 +946,14 @@ theorem roundtrip_then_halt : (run wF5 contF5).isSome = true ∧ (run wF5' contF
 /-- corpus/C12_F9_session_counter_reissued.ops: sessions 1 (kept alive) and 2 (ended, settled). -/
 def histF9 : List Op :=
   [.begin 1700000005000000000] ++ wNodeUp ++
-  [.tx (.nodeSubscribe (acc 3) (nod 2) 1 0 "udvpn"), .tx (.nodeSubscribe (acc 4) (nod 2) 1 0 "udvpn"),
-   .tx (.sessStart (acc 3) 1 (nod 2)), .tx (.sessStart (acc 4) 2 (nod 2)), .tx (.sessEnd (acc 4) 2 0), .endB,
+  [.tx (.nodeSubscribe (acc 3) (nod 2) 1 0 "udvpn"), .tx (.nodeSubscribe (acc 3) (nod 2) 1 0 "udvpn"),
+   .tx (.sessStart (acc 3) 1 (nod 2)), .tx (.sessStart (acc 3) 2 (nod 2)), .tx (.sessEnd (acc 3) 2 0), .endB,
    .begin 1700001000000000000, .tx (.sessUpdate (nod 2) 1 10 10 1 .none), .endB,
    .begin 1700001900000000000, .endB]
 theorem histF9_runs : (run wGenesis.state histF9).isSome = true := by decide +kernel
 def wF9 : State := (run wGenesis.state histF9).get histF9_runs
 theorem wF9_reachable : Reachable wF9 ∧ AtBoundary wF9 :=
-  ⟨⟨wGenesis, histF9, (Option.some_get histF9_runs).symm⟩, by decide +kernel⟩
+  ⟨⟨wGenesis, histF9, (Option.some_get histF9_runs).symm⟩, by show wF9.modified = {}; decide +kernel⟩
 theorem wF9_reimports : (reimport wF9).isSome = true := by decide +kernel
 def wF9' : State := (reimport wF9).get wF9_reimports
 theorem wF9_reimport : reimport wF9 = some wF9' := (Option.some_get wF9_reimports).symm
@@ -765,7 +976,7 @@ theorem putDeposit_no_empty (s : State) (a : Addr) (c cs : Coins) (h : (putDepos
     cs.isZero = false := by
   unfold putDeposit at h
   split at h
-  · simp [deleteDeposit, Tbl.get_erase] at h
+  · simp [deleteDeposit] at h
   · rename_i hz
     simp only [setDeposit, Tbl.get_set_eq, Option.some.injEq] at h
     rw [← h]; simpa using hz
@@ -787,5 +998,54 @@ theorem emptied_deposit_is_deleted :
     validateGenesis (exportVpn wF8) (exportSwap wF8) (exportMint wF8) = none ∧ (reimport wF8).isSome = true := by decide +kernel
 
 end witnesses
+
+/-! ## Non-vacuity: the hypotheses hold on non-trivial reachable states -/
+
+section examples
+
+def prv (b : UInt8) : TextAddr := { role := .prov, bytes := [b] }
+def hashA : Bytes := List.replicate 32 0xaa
+
+/-- First block of corpus/C12_roundtrip_basic.ops (with the deposits of this genesis): an active and an
+inactive provider, an active node (queue entry) and an inactive one, two plans (one active) with three
+links, two subscriptions with a session each (one already ending), a swap of 20000 (recorded 200). -/
+def histRich : List Op :=
+  [.begin 1700000005000000000,
+   .tx (.provRegister (acc 1) [0x70] [] [] [] true), .tx (.provRegister (acc 4) [0x71, 0x75] [0x69, 0x64] [] [0x64] true),
+   .tx (.provUpdate (prv 1) [] [] [] [] 1 true)] ++ wNodeUp ++
+  [.tx (.nodeRegister (acc 4) (udvpn 20) (udvpn 7) wUrl true),
+   .tx (.planCreate (prv 1) 86400000000000 10 (udvpn 100)), .tx (.planCreate (prv 1) 172800000000000 20 (udvpn 150)),
+   .tx (.planStatus (prv 1) 1 1), .tx (.planLink (prv 1) 1 (nod 2)), .tx (.planLink (prv 1) 1 (nod 4)), .tx (.planLink (prv 1) 2 (nod 4)),
+   .tx (.nodeSubscribe (acc 3) (nod 2) 1 0 "udvpn"), .tx (.nodeSubscribe (acc 3) (nod 2) 1 0 "udvpn"),
+   .tx (.sessStart (acc 3) 1 (nod 2)), .tx (.sessStart (acc 3) 2 (nod 2)),
+   .tx (.sessUpdate (nod 2) 2 300000000 200000000 10 .none), .tx (.sessEnd (acc 3) 2 5),
+   .tx (.swap (acc 1) hashA (acc 3) 20000), .endB]
+theorem histRich_runs : (run wGenesis.state histRich).isSome = true := by decide +kernel
+def wRich : State := (run wGenesis.state histRich).get histRich_runs
+
+example : wRich.provActive.keys = [[1]] ∧ wRich.provInactive.keys = [[4]] ∧ wRich.nodeActive.keys = [[2]] ∧ wRich.nodeInactive.keys = [[4]] ∧
+    wRich.planActive.keys = [1] ∧ wRich.planInactive.keys = [2] ∧ wRich.nodeForPlan.keys = [(1, [2]), (1, [4]), (2, [4])] ∧
+    wRich.sessions.keys = [1, 2] ∧ wRich.swaps.keys = [hashA] ∧ wRich.planCount = some 2 ∧ wRich.sessCount = some 2 := by decide +kernel
+
+theorem wRich_wf : GenWF wRich := genWF_of_check (by decide +kernel)
+example : GenWF wF5 := genWF_of_check (by decide +kernel)
+example : GenWF wF9 := genWF_of_check (by decide +kernel)
+example : GenWF wF8 := genWF_of_check (by decide +kernel)
+
+/-- `roundtrip_partial` applied. -/
+example : ∃ s', reimport wRich = some s' ∧ Agree wRich s' := (roundtrip_partial wRich wRich_wf).2.2
+
+/-- `continuation_partial` applied: a further plan, a link and a status change after the round trip. -/
+example : ∃ s', reimport wRich = some s' ∧
+    (deliverAll s' [.planCreate (prv 1) 86400000000000 5 (udvpn 50), .planLink (prv 1) 3 (nod 2), .nodeStatus (nod 4) 1]).2 =
+    (deliverAll wRich [.planCreate (prv 1) 86400000000000 5 (udvpn 50), .planLink (prv 1) 3 (nod 2), .nodeStatus (nod 4) 1]).2 := by
+  obtain ⟨s', h1, h2, _⟩ := continuation_partial wRich wRich_wf
+    [.planCreate (prv 1) 86400000000000 5 (udvpn 50), .planLink (prv 1) 3 (nod 2), .nodeStatus (nod 4) 1] (by decide)
+  exact ⟨s', h1, h2⟩
+
+/-- On the F4 witness the hypotheses fail, and exactly in the swap-record check. -/
+example : genWFb wF4 = false ∧ genWFViolations wF4 = ["swap records valid (F4: amount >= 100)"] := by decide +kernel
+
+end examples
 
 end Hub.Props.C12
